@@ -309,6 +309,33 @@ func c03Layout(c *Ctx, root *packages.Package) {
 	}
 	sort.Strings(users)
 	r.Check(len(users) == 0, "C03-f", "A.pigeon.go:single-line-layout-only-in-EOS", "", "pigeon.go", "_ (no line end, no one-line comment) is referenced by the end-of-statement rule only", fmt.Sprintf("rule(s) %v separate tokens with _ : a line end or a // comment at that place is rejected although the documented syntax allows any layout there", uniq(users)))
+	// 2b. identifier classes: the reserved-word check (rule Identifier) is for names that become Go parameters, i.e.
+	// the labels of labelled expressions; failure labels are plain identifier names, and the throw operator and the
+	// label list of the recovery operator must lex them by the same rule (a label one of them accepts and the other
+	// rejects can be thrown but not caught, or listed but not thrown)
+	idRules := func(rule string) []string {
+		got := map[string]bool{}
+		for _, x := range refs[rule] {
+			if x == "Identifier" || x == "IdentifierName" {
+				got[x] = true
+			}
+		}
+		return keysOf(got)
+	}
+	if _, hasThrow := refs["ThrowExpr"]; hasThrow {
+		th, lb := strings.Join(idRules("ThrowExpr"), ","), strings.Join(idRules("Labels"), ",")
+		r.Check(th == lb && th != "", "C03-f", "A.pigeon.go:failure-labels-lexed-alike", "", "pigeon.go", "ThrowExpr and Labels take their labels from {"+th+"}", fmt.Sprintf("the throw operator takes its label from {%s}, the label list of the recovery operator from {%s}: a label accepted by one is rejected by the other", th, lb))
+	}
+	var idUsers []string
+	for n, rs := range refs {
+		for _, x := range rs {
+			if x == "Identifier" && n != "LabeledExpr" {
+				idUsers = append(idUsers, n)
+			}
+		}
+	}
+	sort.Strings(idUsers)
+	r.Check(len(idUsers) == 0, "C03-f", "A.pigeon.go:reserved-word-check-for-labels-only", "", "pigeon.go", "rule Identifier (identifier that is not a Go reserved word) is referenced by LabeledExpr only", fmt.Sprintf("rule(s) %v take their name from Identifier, which rejects Go keywords and predeclared identifiers: rule names and failure labels spelled like one (error, string, len, type) are documented syntax and are now rejected", uniq(idUsers)))
 	// 3. adjacency in the syntactic rules
 	var names []string
 	for n := range refs {
